@@ -32,11 +32,18 @@ CONTAINMENT_TOLERANCE_CAP = 0.5
 def _solve_bounded_lp(c: Any, a_ub: Any, b_ub: Any) -> Any:
     """Solve an LP whose objective is bounded by construction.
 
-    The solver's presolve occasionally reports such a problem as unbounded or infeasible when the
-    coefficients differ by many orders of magnitude; in that case it is solved again without presolve.
+    When the coefficients differ by many orders of magnitude the solver's presolve occasionally reports
+    such a problem as unbounded or infeasible, or returns an inaccurate optimum; in those cases it is
+    solved again without presolve.
     """
     res = linprog(c=c, A_ub=a_ub, b_ub=b_ub, bounds=(None, None))
-    if res["status"] != 0:
+    trusted = res["status"] == 0
+    if trusted and "ineqlin" in res:
+        # an optimum rebuilt by the presolve from astronomically large variable values can be far off: the
+        # dual objective must agree with it
+        dual = float(np.dot(res["ineqlin"]["marginals"], b_ub))
+        trusted = abs(dual - res["fun"]) <= 1e-6 * (1 + abs(res["fun"]))  # noqa: WPS432 magic number
+    if not trusted:
         res = linprog(c=c, A_ub=a_ub, b_ub=b_ub, bounds=(None, None), options={"presolve": False})
     return res
 
